@@ -255,6 +255,10 @@ class Interp(object):
       raise _Continue()
     elif isinstance(s, ast.Pass):
       return
+    elif isinstance(s, ast.Delete) and all(
+        isinstance(t, ast.Name) for t in s.targets):
+      for t in s.targets:  # `del unused_arg`
+        env.pop(t.id, None)
     else:
       raise AnalysisError('interp: unsupported statement %s (line %s)' %
                           (type(s).__name__, getattr(s, 'lineno', '?')))
